@@ -137,7 +137,7 @@ class Ctx:
             raise self.fatal
         self.n_checks += 1
         t0 = time.time()
-        if Cfg.mode == "bv":
+        if Cfg.mode == "bv" or not getattr(self, "incremental", True):
             # FP/BV kernels: a fresh non-incremental solver lets z3 use its bit-blasting
             # tactic pipeline (orders of magnitude faster than the incremental core)
             s = z3.Solver()
@@ -150,9 +150,21 @@ class Ctx:
             if extra:
                 s.push()
                 s.add(*extra)
-        r = s.check()
-        m = s.model() if r == z3.sat else None
-        why = s.reason_unknown() if r == z3.unknown else ""
+        try:
+            r = s.check()
+            m = s.model() if r == z3.sat else None
+            why = s.reason_unknown() if r == z3.unknown else ""
+        except z3.Z3Exception:
+            # an internal error of the incremental core (seen: b'unreachable'): decide this one query with a
+            # fresh solver over the same path condition
+            s2 = z3.Solver()
+            s2.set("timeout", Cfg.solver_timeout_ms)
+            s2.add(*self.pc)
+            if extra:
+                s2.add(*extra)
+            r = s2.check()
+            m = s2.model() if r == z3.sat else None
+            why = s2.reason_unknown() if r == z3.unknown else ""
         if extra and s is self.solver:
             s.pop()
         self.t_solver += time.time() - t0
@@ -325,9 +337,11 @@ def explore(
     deadline = t0 + max_secs
     base = list(prefix or [])
     cur = list(base)
+    retry_fresh = False
     while True:
         c = Ctx(cur, deadline)
         c.split_depth = split_depth
+        c.incremental = not retry_fresh
         CTX = c
         outcome: Any
         try:
@@ -343,12 +357,21 @@ def explore(
             outcome = ("budget", None)
         except EngineSignal as e:  # pragma: no cover
             outcome = ("signal", repr(e))
+        except z3.Z3Exception as e:
+            if not retry_fresh:
+                # an internal error of z3's incremental core (seen: b'unreachable'): re-run this very path
+                # with a fresh solver per query
+                retry_fresh = True
+                CTX = None
+                continue
+            outcome = ("exc", f"Z3Exception: {str(e)[:120]}")
         except Exception as e:  # escaped the harness: harness decides what that means
             tb = traceback.extract_tb(e.__traceback__)
             where = f"{tb[-1].filename.split('/')[-1]}:{tb[-1].lineno}" if tb else "?"
             outcome = ("exc", f"{type(e).__name__}@{where}: {str(e)[:120]}")
         finally:
             CTX = None
+        retry_fresh = False
         if c.fatal is not None and outcome[0] in ("ok", "exc"):
             # an engine signal was raised but swallowed somewhere
             f = c.fatal
